@@ -608,6 +608,9 @@ func (c *crashCtx) lossImages(w *bufio.Writer, dir string, r *rng, thorough bool
 	if !unsynced {
 		return
 	}
+	if thorough || r.chance(50) {
+		c.lossDied(w, dir)
+	}
 	emit("all", all)
 	// each single file at intermediate lengths
 	for _, f := range files {
@@ -648,6 +651,72 @@ func (c *crashCtx) lossImages(w *bufio.Writer, dir string, r *rng, thorough bool
 			emit("vec", cuts)
 		}
 	}
+}
+
+// lossDied: the process dies without a power loss (the files stay as they are, unsynced tails included); a new
+// process opens the directory with Recover and calls Sync, which acknowledges everything there is; then the power is
+// lost. What nobody fsynced - neither the dead process nor the new one - is gone, and everything below the offset
+// Sync returned must survive.
+func (c *crashCtx) lossDied(w *bufio.Writer, dir string) {
+	work := filepath.Join(c.root, "ld")
+	_ = os.RemoveAll(work)
+	copyDir(dir, work)
+	defer os.RemoveAll(work)
+	saved, savedNo := c.synced, c.noImg
+	carried := map[string]int64{}
+	for k, v := range saved {
+		carried[k] = v
+	}
+	c.synced, c.noImg = carried, true
+	var l klevdb.Log
+	ackw := int64(-1)
+	c.tapOp(work, func() {
+		defer func() { _ = recover() }()
+		var err error
+		if l, err = klevdb.Open(work, c.opts(true)); err == nil {
+			if n, err := l.Sync(); err == nil {
+				ackw = n
+			}
+		}
+	})
+	synced2 := c.synced
+	c.synced, c.noImg = saved, savedNo
+	img2 := filepath.Join(c.root, "ldimg")
+	_ = os.RemoveAll(img2)
+	copyDir(work, img2) // before Close, which would fsync
+	defer os.RemoveAll(img2)
+	if l != nil {
+		_ = l.Close()
+	}
+	if ackw < 0 {
+		fmt.Fprintf(w, "loss.img died ackw=-1 cuts=- => err open-or-sync\n")
+		return
+	}
+	var desc []string
+	ents, _ := os.ReadDir(img2)
+	for _, e := range ents {
+		if e.IsDir() || e.Name() == ".lock" {
+			continue
+		}
+		s, ok := synced2[e.Name()]
+		if !ok {
+			continue // never written by a process we watched: as durable as it is
+		}
+		st, _ := os.Stat(filepath.Join(img2, e.Name()))
+		if s < st.Size() {
+			if s != 0 && s < 8 {
+				s = 0
+			}
+			_ = os.Truncate(filepath.Join(img2, e.Name()), s)
+			desc = append(desc, fmt.Sprintf("%s@%d", e.Name(), s))
+		}
+	}
+	d := "-"
+	if len(desc) > 0 {
+		sort.Strings(desc)
+		d = strings.Join(desc, ",")
+	}
+	fmt.Fprintf(w, "loss.img died ackw=%d cuts=%s => %s\n", ackw, d, c.observeImage(img2))
 }
 
 // lossAgain: power is lost a second time right after the recovery of a loss image (before any
